@@ -33,15 +33,23 @@ def observe_ops(rng, b, k=6):
     return ops
 
 
-def history_model(rng, k, tier):
-    """One earlier model A_k with its ending."""
+def history_model(rng, k, tier, like=None):
+    """One earlier model A_k with its ending.  `like` = (template, n, seed): a model of the same shape as B, so
+    that every work area / registry the earlier model leaves behind has exactly the size B needs."""
     big = rng.random() < 0.6
-    b = templates.build_model(rng, prefix="h%d_" % k, weights=BIG if big else None,
-                              n=rng.choice([3, 4, 5]) if big else None,
-                              decorations=[rng.choice(templates.DECORATIONS) for _ in range(rng.choice([1, 2, 3]))]
-                              if big else None)
+    if like is not None:
+        import random as _random
+        b = templates.build_model(_random.Random(like[2]), prefix="h%d_" % k, template=like[0], n=like[1],
+                                  decorations=[])
+    else:
+        b = templates.build_model(rng, prefix="h%d_" % k, weights=BIG if big else None,
+                                  n=rng.choice([3, 4, 5]) if big else None,
+                                  decorations=[rng.choice(templates.DECORATIONS) for _ in range(rng.choice([1, 2, 3]))]
+                                  if big else None)
     ops = list(b.ops)
     ending = rng.choice(["built", "solved", "solved", "failed", "interrupted", "interrupted", "stdout", "abandoned"])
+    if like is not None and rng.random() < 0.6:
+        ending = "interrupted-in-encoder"
     if ending == "abandoned":
         cut = rng.randrange(1, len(ops) + 1)
         ops = ops[:cut]
@@ -61,14 +69,20 @@ def history_model(rng, k, tier):
             s["env"] = {"mosek": "present", "licence": {"expire_after_checks": 1}}
         else:
             s["cfg"]["mode"] = "neither"     # invalid option: raises after the solve
+    elif ending == "interrupted-in-encoder":
+        # abandoned in the middle of translating an expression for the solver (work areas half written)
+        s["cfg"]["wrapper"] = rng.choice(["cvxpy", "cvxpy", "mosek"])
+        s["env"] = {"mosek": "present"}
+        s["faults"] = {"interrupt": {"at": int(10 ** rng.uniform(0.5, 2.6)), "fn": rng.choice(
+            ["expression_to_matrices", "expression_to_matrices", "expression_to_sparse_matrices",
+             "_expression_to_solver", "send_constraint_to_solver"])}}
     elif ending == "interrupted":
         if rng.random() < 0.5:
             at = int(10 ** rng.uniform(0, 3.9))
             s["faults"] = {"interrupt": {"at": at}}
         else:
-            fn = rng.choice(["add_class_constraints", "_solve_with_wrapper", "_eval_points_and_function_values",
-                             "check_feasibility", "send_constraint_to_solver", "add_partition_constraints",
-                             "add_point", "assign_dual_values", "eval"])
+            from sim.props.base import INTERRUPT_TARGETS
+            fn = rng.choice(INTERRUPT_TARGETS + ["add_point", "eval", "expression_to_matrices", "_expression_to_solver"])
             s["faults"] = {"interrupt": {"at": int(10 ** rng.uniform(0, 2.3)), "fn": fn}}
     elif ending == "stdout":
         s["cfg"]["verbose"] = rng.choice([1, 2])
@@ -149,11 +163,19 @@ class C12(Prop):
             hist = ops + [s]
             endings = ["enum:v%d:%d/%d" % (variant, at, total)]
             k = 0
+        bseed = rng.randrange(1 << 30)
+        import random as _random
+        brng = _random.Random(bseed)
+        btemplate = brng.choices(sorted(templates.DEFAULT_WEIGHTS),
+                                 weights=[templates.DEFAULT_WEIGHTS[t] for t in sorted(templates.DEFAULT_WEIGHTS)])[0]
+        bn = brng.choice([1, 1, 2, 3])
         for i in range(k):
-            ops, e = history_model(rng, i, tier)
+            like = (btemplate, bn, bseed) if rng.random() < 0.3 else None
+            ops, e = history_model(rng, i, tier, like=like)
             hist += ops
-            endings.append(e)
-        b = templates.build_model(rng, prefix="b_", n=rng.choice([1, 1, 2, 3]))
+            endings.append(e + ("~B" if like else ""))
+        b = templates.build_model(_random.Random(bseed), prefix="b_", template=btemplate, n=bn,
+                                  decorations=[] if rng.random() < 0.5 else None)
         bops = list(b.ops)
         mode = rng.choice(["tagged", "tagged", "real"])
         for s in range(rng.choice([1, 1, 2])):
